@@ -372,6 +372,55 @@ func c06Boundary(c *rt.Ctx, entries []c06Entry, L int) {
 	c.Sample(map[string]any{"family": "refill-boundary lengths", "length": L, "inputs": sub, "entry_points": len(entries)})
 }
 
+// c06AfterErrors: an entry point that fails must leave the pooled state usable. After every
+// failing call (each kind of failure an entry point can report) a decode that holds two pooled
+// contexts at once (an unmarshaler that decodes its own bytes with the library) must still return.
+func c06AfterErrors(c *rt.Ctx, entries []c06Entry, sub0 int) {
+	bad := []string{`{"a":1} x`, `{"a":{"b":[1]}}]`, `[1,2`, `{"a":}`, `{"a":1}{"a":2}`, `"abc`, `{"a":"\ud800"} ,`, `nul`, `[1,2] 3`, ``, `{"e":{"e":{"e":1}}} }`, `{"d":{"x":[1,2]},"S":[{"name":"n"}]} !`}
+	type nestedDst struct {
+		A string       `json:"a"`
+		N c11NestedU   `json:"n"`
+		L []c11NestedU `json:"l"`
+		Z []int        `json:"z"`
+	}
+	good := []byte(`{"a":"before","n":{"k":[1,2],"x":"inner"},"l":[{"k":1},[2],{"k":{"k":4}}],"z":[7,8,9]}`)
+	sub := sub0
+	for i := range entries {
+		e := &entries[i]
+		ename := e.name
+		if j := strings.IndexByte(ename, '/'); j > 0 {
+			ename = ename[:j]
+		}
+		if !c.Cur(sub, "shapes=core\nafter a failing call of "+e.name) {
+			sub++
+			continue
+		}
+		for _, b := range bad {
+			rt.Guard(func() { e.f([]byte(b)) })
+			for rep := 0; rep < 2; rep++ {
+				var v nestedDst
+				var err error
+				pan, msg, frame := rt.Guard(func() { err = gojson.Unmarshal(good, &v) })
+				c.Eval(1)
+				if pan || err != nil || v.A != "before" || len(v.Z) != 3 || len(v.L) != 3 {
+					if frame == "" {
+						frame = "no-gojson-frame"
+					}
+					kind := "panic:" + rt.PanicClass(msg)
+					if !pan {
+						kind = "valid-document-fails-after-error"
+					}
+					c.Violate(rt.Violation{Monitor: "no-panic", Entry: ename, Kind: kind, Ctx: "after-error:" + frame,
+						Detail: fmt.Sprintf("after %s on %s a nested decode of a valid document gave err=%v panic=%v %s (a=%q z=%v)", e.name, rt.Q([]byte(b)), err, pan, msg, v.A, v.Z), Input: b, Sub: sub})
+					break
+				}
+			}
+		}
+		sub++
+	}
+	c.Obs("after_error_histories", int64(len(entries)*len(bad)))
+}
+
 func tower(open, close string, depth int, leaf string) []byte {
 	return []byte(strings.Repeat(open, depth) + leaf + strings.Repeat(close, depth))
 }
@@ -404,6 +453,7 @@ func init() {
 					c06Run(c, sub, entries, []byte{a}, "exhaustive")
 				}
 				c.NonTrivialEnum(int64(n + 1))
+				c06AfterErrors(c, entries, 1000)
 			case c.Idx <= n*n:
 				// every string of length 2..2+sufLen with this two-symbol prefix
 				k := c.Idx - 1
